@@ -2,7 +2,19 @@
    Definitions (because the facts were being proved in parallel) discharged by the real theorems. *)
 From Bnum Require Import Base Prim.
 From Bnum.Model Require Import Digit Core Shift AddSub Mul Div Bits Pow.
-From Bnum.Proofs Require Import Mul PowDeps.
+From Bnum.Proofs Require Import Mul PowDeps DivSpec DivDigit Div.
 
 Lemma mul_spec_holds : mul_spec.
 Proof. exact long_mul_ok. Qed.
+
+Lemma div_spec_holds : div_spec.
+Proof.
+  intros w n a b Hw Ha Hb Hnz. pose proof (U_div_rem_unchecked_ok w Hw n a b Ha Hb Hnz) as H.
+  destruct (U_div_rem_unchecked w a b) as [q r]. exact H.
+Qed.
+
+Lemma div_digit_spec_holds : div_digit_spec.
+Proof.
+  intros w n a d Hw Ha Hd. pose proof (div_rem_digit_ok w n a d Hw Ha Hd) as H.
+  destruct (div_rem_digit w a d) as [q r]. exact H.
+Qed.
